@@ -157,7 +157,7 @@ def make_stale(out):
                     f.write(STALE_TAIL.encode() * 3)
 
 
-def run_pair(files, dirs=('src',), is_user=False, symlinks=None, stale=False):
+def run_pair(files, dirs=('src',), is_user=False, symlinks=None, stale=False, extra_dirs=()):
     """the same materialised tree: first --dry-run (with before/after snapshot), then a normal run
     (stale: into an output directory that already holds longer files of the same names)"""
     base = fresh_dir()
@@ -165,7 +165,8 @@ def run_pair(files, dirs=('src',), is_user=False, symlinks=None, stale=False):
         os.makedirs(os.path.join(base, d), exist_ok=True)
     write_tree(base, files, symlinks)
     out = os.path.join(base, 'out')
-    dirs_env = ':'.join(os.path.join(base, d) for d in dirs)
+    # extra_dirs: further entries of QUADLET_UNIT_DIRS that are not created as directories (missing, dangling links, loops, files)
+    dirs_env = ':'.join(os.path.join(base, d) for d in list(dirs) + list(extra_dirs))
     before = snapshot(base)
     u = ['--user'] if is_user else []
     rc, so, se = run_binary(['--dry-run'] + u + ['--no-kmsg-log', out], dirs_env)
